@@ -215,3 +215,70 @@ func Test_Replay(t *testing.T) {
 @adapter(r"GenginePool\)\.(prepare|prepareWithMultiInput):ensures:snapshot")
 def pool_publication_race(prop, name, ob, repo, work):
     return pool_race(prop, "GenginePool).prepare:race:Kc", ob, repo, work)
+
+
+@adapter(r"engine\.getKc:ensures:agreement|:ensures:agreement")
+def entry_points_disagree(prop, name, ob, repo, work):
+    """a text with a lexer-only error must be rejected by every compile entry point"""
+    body = '''
+func Test_Replay(t *testing.T) {
+	good := `rule "a" salience 3 begin x = 1 end`
+	bad := "rule \\"b\\" begin x = 1 $ end"
+	rb := builder.NewRuleBuilder(context.NewDataContext())
+	e1 := rb.BuildRuleFromString(bad)
+	e2 := rb.BuildRuleWithIncremental(bad)
+	_, e3 := engine.NewGenginePool(1, 2, 1, bad, map[string]interface{}{})
+	pool, err := engine.NewGenginePool(1, 2, 1, good, map[string]interface{}{})
+	if err != nil {
+		t.Fatal(err)
+	}
+	e4 := pool.UpdatePooledRules(bad)
+	e5 := pool.UpdatePooledRulesIncremental(bad)
+	rej := []bool{e1 != nil, e2 != nil, e3 != nil, e4 != nil, e5 != nil}
+	for _, r := range rej {
+		if r != rej[0] {
+			t.Fatalf("entry points disagree on %q: rejected = %v (full, incremental, pool construction, pool full update, pool incremental update)", bad, rej)
+		}
+	}
+}'''
+    return run_scenario(repo, body, "Test_Replay", imports=("github.com/bilibili/gengine/builder", "github.com/bilibili/gengine/context"))
+
+
+@adapter(r"(updateIncremental|BuildRuleWithIncremental):frame:F_base_KnowledgeContext_|updateIncremental:ensures:fresh")
+def incremental_update_in_place(prop, name, ob, repo, work):
+    """an incremental update triggered while an execution is between two stages must not change what that execution runs"""
+    body = '''
+type updater struct {
+	pool *engine.GenginePool
+	text string
+}
+
+func (u *updater) Update() {
+	if err := u.pool.UpdatePooledRulesIncremental(u.text); err != nil {
+		panic(err)
+	}
+}
+
+func Test_Replay(t *testing.T) {
+	v1 := `rule "a" salience 30 begin up.Update() return 1 end rule "b" salience 20 begin return 1 end rule "c" salience 10 begin return 1 end`
+	v2 := `rule "b" salience 20 begin return 2 end rule "c" salience 5 begin return 2 end rule "d" salience 25 begin return 2 end`
+	up := &updater{text: v2}
+	pool, err := engine.NewGenginePool(1, 2, 1, v1, map[string]interface{}{"up": up})
+	if err != nil {
+		t.Fatal(err)
+	}
+	up.pool = pool
+	e, res := pool.ExecuteNSortMConcurrent(1, 2, true, map[string]interface{}{})
+	if e != nil {
+		t.Fatalf("error: %v", e)
+	}
+	for name, v := range res {
+		if v != int64(1) {
+			t.Fatalf("one execution ran two versions of the rule set: result[%s]=%v, all=%v", name, v, res)
+		}
+	}
+	if len(res) != 3 {
+		t.Fatalf("execution did not run version 1 completely: %v", res)
+	}
+}'''
+    return run_scenario(repo, body, "Test_Replay")
